@@ -2938,6 +2938,7 @@ func (c *connection) send(buf *lib.Buffer, order uint8, compression gen.Compress
 }
 
 func (c *connection) waitResult(ref gen.Ref, ch chan MessageResult) (result MessageResult) {
+	lib.VerifPoint("req.wait", ref)
 
 	timer := lib.TakeTimer()
 	defer lib.ReleaseTimer(timer)
